@@ -53,10 +53,10 @@ theorem inv4_step {P : Params} {s s' : State} (h1 : Inv1 P s) (h2 : Inv2 s) (h :
     · intro k ts st hc; rw [hp] at hc; cases hc
     · intro hc; simp [setPhase] at hc
     · intro ts d t hc; simp [setPhase] at hc
-  | publishOne i run l todo newLoc v hp hv =>
+  | publishOne i run l todo newLoc v hp hl hv =>
     have hsh := (h2 i).shape; unfold Shape at hsh; rw [hp] at hsh
-    obtain ⟨done, hdone, hnew, hold⟩ := hsh
-    have hnd : l ∉ done := nodup_mid (hdone ▸ writeLocs_nodup run.writes)
+    obtain ⟨done, _, hdisj, _, hnew, hold⟩ := hsh
+    have hnd : l ∉ done := hdisj l hl
     refine inv4_of i h1 h (fun j hj => by simp [updF, hj]) ⟨?_, ?_⟩ (fun _ => Nat.le_refl _) ?_ ⟨?_, ?_⟩
     · intro ho; rw [hp] at ho
       left; simp only [updF_same, Owes] at ho ⊢
@@ -91,10 +91,10 @@ theorem inv4_step {P : Params} {s s' : State} (h1 : Inv1 P s) (h2 : Inv2 s) (h :
     · intro k ts st hc; rw [hp] at hc; cases hc
     · intro hc; simp [setPhase] at hc
     · intro ts d t hc; simp [setPhase] at hc
-  | removeOne i run l todo newLoc hp =>
+  | removeOne i run l todo newLoc hp hl =>
     have hsh := (h2 i).shape; unfold Shape at hsh; rw [hp] at hsh
     obtain ⟨hnew, hold, hdisj⟩ := hsh
-    have hl : l ∉ writeLocs run.writes := hdisj l List.mem_cons_self
+    have hlw : l ∉ writeLocs run.writes := hdisj l hl
     refine inv4_of i h1 h (fun j hj => by simp [updF, hj]) ⟨?_, ?_⟩ (fun _ => Nat.le_refl _) ?_ ⟨?_, ?_⟩
     · intro ho; rw [hp] at ho; left; simpa [Owes] using ho
     · intro k ts st hc; rw [hp] at hc; cases hc
@@ -110,7 +110,7 @@ theorem inv4_step {P : Params} {s s' : State} (h1 : Inv1 P s) (h2 : Inv2 s) (h :
         show readOk (setMv s.mv l i none) r x = true
         rw [this]; exact hall x hx
       | some eold =>
-        have hest := (hold l hl eold hc).2
+        have hest := (hold l hlw eold hc).2
         intro x hx
         exact readOk_replace_estimate s.mv l i eold none hc hest r x (hall x hx)
     · intro hc; simp at hc
@@ -133,7 +133,7 @@ theorem inv4_step {P : Params} {s s' : State} (h1 : Inv1 P s) (h2 : Inv2 s) (h :
     · intro k ts st hc; rw [hp] at hc; cases hc
     · intro hc; simp at hc
     · intro ts d t hc; simp at hc
-  | markErrSome i e ow l todo en hp hm =>
+  | markErrSome i e ow l todo en hp hl hm =>
     refine inv4_of i h1 h (fun j hj => by simp [updF, hj]) ⟨?_, ?_⟩ (fun _ => Nat.le_refl _) ?_ ⟨?_, ?_⟩
     · intro _; left; simp [Owes]
     · intro k ts st hc; rw [hp] at hc; cases hc
@@ -145,13 +145,13 @@ theorem inv4_step {P : Params} {s s' : State} (h1 : Inv1 P s) (h2 : Inv2 s) (h :
       · right; right; left; exact ⟨i, by omega, by simp [Owes]⟩
     · intro hc; simp at hc
     · intro ts d t hc; simp at hc
-  | markErrNone i e ow l todo hp hm =>
+  | markErrNone i e ow l todo hp hl hm =>
     refine inv4_quiet i h1 h rfl rfl (fun j hj => by simp [setPhase, updF, hj]) ⟨?_, ?_⟩ ⟨?_, ?_⟩
     · intro _; left; simp [setPhase, Owes]
     · intro k ts st hc; rw [hp] at hc; cases hc
     · intro hc; simp [setPhase] at hc
     · intro ts d t hc; simp [setPhase] at hc
-  | markValSome i l todo en hp hm =>
+  | markValSome i l todo en hp hl hm =>
     refine inv4_of i h1 h (fun j hj => by simp [updF, hj]) ⟨?_, ?_⟩ (fun _ => Nat.le_refl _) ?_ ⟨?_, ?_⟩
     · intro _; left; simp [Owes]
     · intro k ts st hc; rw [hp] at hc; cases hc
@@ -163,7 +163,7 @@ theorem inv4_step {P : Params} {s s' : State} (h1 : Inv1 P s) (h2 : Inv2 s) (h :
       · right; right; left; exact ⟨i, by omega, by simp [Owes]⟩
     · intro hc; simp at hc
     · intro ts d t hc; simp at hc
-  | markValNone i l todo hp hm =>
+  | markValNone i l todo hp hl hm =>
     refine inv4_quiet i h1 h rfl rfl (fun j hj => by simp [setPhase, updF, hj]) ⟨?_, ?_⟩ ⟨?_, ?_⟩
     · intro _; left; simp [setPhase, Owes]
     · intro k ts st hc; rw [hp] at hc; cases hc
@@ -218,7 +218,7 @@ theorem inv4_step {P : Params} {s s' : State} (h1 : Inv1 P s) (h2 : Inv2 s) (h :
       injection hc with h1' h2' h3' h4'
       subst h2'
       left; intro x hx; simp at hx
-  | valCheck i ts done r todo conflict hp =>
+  | valCheck i ts done r todo conflict k hp hk =>
     refine inv4_quiet i h1 h rfl rfl (fun j hj => by simp [setPhase, updF, hj]) ⟨?_, ?_⟩ ⟨?_, ?_⟩
     · intro ho; rw [hp] at ho; exact absurd ho (by simp [Owes])
     · intro k ts' st hc; rw [hp] at hc; cases hc
@@ -230,7 +230,7 @@ theorem inv4_step {P : Params} {s s' : State} (h1 : Inv1 P s) (h2 : Inv2 s) (h :
       have hcf : conflict = false ∧ readOk s.mv i r = true := by
         cases conflict <;> cases hro : readOk s.mv i r <;> simp_all
       obtain ⟨rfl, hro⟩ := hcf
-      rcases (h i).scan ts done (r :: todo) hp with hall | hj
+      rcases (h i).scan ts done todo hp with hall | hj
       · left
         intro x hx
         rcases List.mem_cons.mp hx with rfl | hx
@@ -264,12 +264,12 @@ theorem inv4_step {P : Params} {s s' : State} (h1 : Inv1 P s) (h2 : Inv2 s) (h :
         simp only [updF_same]; omega
       show AllOk _ i r'.reads ∨ Justified _ i (updF s.uts i (max (s.uts i) ts) i)
       rw [huts]
-      have hreads : r'.reads = done.reverse := by simpa using hrd.symm
       rcases (h i).scan ts done [] hp with hall | hj
       · left
         intro x hx
-        rw [hreads] at hx
-        exact hall x (List.mem_reverse.mp hx)
+        have := (hrd x).mp hx
+        simp at this
+        exact hall x this
       · right
         rcases hj with ⟨k, hk, hlt⟩ | ⟨j, hj, ho⟩ | ⟨j, k, ts'', st, hj, hpj, hlt⟩
         · exact Or.inl ⟨k, hk, hlt⟩
